@@ -639,12 +639,15 @@ class EnvironHeaders(ImmutableHeadersMixin, Headers):  # type: ignore[misc]
         if not isinstance(key, str):
             raise BadRequestKeyError(key)
 
-        key = key.upper().replace("-", "_")
+        environ_key = key.upper().replace("-", "_")
 
-        if key in {"CONTENT_TYPE", "CONTENT_LENGTH"}:
-            return self.environ[key]  # type: ignore[no-any-return]
+        if environ_key not in {"CONTENT_TYPE", "CONTENT_LENGTH"}:
+            environ_key = f"HTTP_{environ_key}"
 
-        return self.environ[f"HTTP_{key}"]  # type: ignore[no-any-return]
+        try:
+            return self.environ[environ_key]  # type: ignore[no-any-return]
+        except KeyError:
+            raise BadRequestKeyError(key) from None
 
     def __len__(self) -> int:
         return sum(1 for _ in self)
